@@ -31,8 +31,7 @@ func (e *Engine) zeroResults(callee *ssa.Function) []Value {
 // freshErr returns a fresh non-nil error value.
 func (e *Engine) freshErr(st *State, hint string) VIface {
 	v := e.sym.Fresh("err!"+hint, SInt)
-	tag := e.sym.Const("type!error!"+hint, SInt)
-	st.Assume(Neq(tag, TZero))
+	tag := IntLit(tagNumber("type!error!" + hint))
 	return VIface{Tag: tag, Val: v}
 }
 
